@@ -29,21 +29,49 @@ theorem layout_agree_abi (tg : Target) (h : wfTarget tg = true) (ha : abiOK tg =
     (hp : padFree tg (toRaw t) = true) : abiTable tg t = llvmLayout tg t := by
   rcases wfTarget_cases tg h with rfl | rfl
   · exact absurd ha (by decide)
-  · exact abi_eq_ll 8 (Or.inr rfl) _ ha t hp
+  · exact abi_eq_ll 8 (Or.inr rfl) 1 _ ha t hp
 
 /-- **(c) = (b) with `fixes/C08-1.diff`** (the descriptor table takes the alignment of 8-byte kinds from the data
     layout): holds on every well-formed target, 386 included. -/
 theorem layout_agree_abi_fixed (tg : Target) (h : wfTarget tg = true) (t : GoType)
     (hp : padFree tg (toRaw t) = true) : abiTableFixed tg t = llvmLayout tg t := by
   rcases wfTarget_cases tg h with rfl | rfl
-  · exact abi_eq_ll 4 (Or.inl rfl) _ (by decide) t hp
-  · exact abi_eq_ll 8 (Or.inr rfl) _ (by decide) t hp
+  · exact abi_eq_ll 4 (Or.inl rfl) 1 _ (by decide) t hp
+  · exact abi_eq_ll 8 (Or.inr rfl) 1 _ (by decide) t hp
 
 /-- **The property, as far as it is true of the current code** (all three computations, every type term). -/
 theorem layout_agree_partial (tg : Target) (h : wfTarget tg = true) (ha : abiOK tg = true) (t : GoType)
     (hp : padFree tg t = true) (hr : padFree tg (toRaw t) = true) :
     goSizes tg t = llvmLayout tg t ∧ abiTable tg t = llvmLayout tg t :=
   ⟨layout_agree_go tg h t hp, layout_agree_abi tg h ha t hr⟩
+
+/-- **Referenced element descriptors** (full statement): the `Size_` of the descriptor a map, slice, chan, pointer,
+    array or struct descriptor references for an element of type `t` is the size of a `t` in generated code. -/
+def ElemDescAgree (tg : Target) (fw : Nat) : Prop := ∀ t, elemDescSize tg fw t = (llvmLayout tg t).size
+
+/-- false for the code as it is (`fw = 1`), on every target: the descriptor of `func()` says one word, a function
+    value is two (`map[int]func()` loses the closure context when it grows; `clear([]func())` clears half). -/
+theorem elem_descriptor_counterexample :
+    elemDescSize amd64 1 .func = 8 ∧ (llvmLayout amd64 .func).size = 16 ∧ (goSizes amd64 .func).size = 16 ∧
+    ¬ ElemDescAgree amd64 1 ∧ ¬ ElemDescAgree arm64 1 ∧ ¬ ElemDescAgree i386 1 ∧ ¬ ElemDescAgree arm 1 ∧
+    ¬ ElemDescAgree wasm 1 :=
+  ⟨by decide, by decide, by decide, fun h => absurd (h .func) (by decide), fun h => absurd (h .func) (by decide),
+   fun h => absurd (h .func) (by decide), fun h => absurd (h .func) (by decide), fun h => absurd (h .func) (by decide)⟩
+
+/-- what holds now: every type that is not itself an unnamed function type -/
+theorem elem_descriptor_agree_partial (tg : Target) (h : wfTarget tg = true) (t : GoType)
+    (hp : padFree tg (toRaw t) = true) (hf : toRaw t ≠ .closure) :
+    elemDescSize tg 1 t = (llvmLayout tg t).size := by
+  rcases wfTarget_cases tg h with rfl | rfl
+  · exact elemDesc_eq 4 (Or.inl rfl) 1 t hp (Or.inr hf)
+  · exact elemDesc_eq 8 (Or.inr rfl) 1 t hp (Or.inr hf)
+
+/-- with `fixes/C08-2.diff` (`Builder.Size` of a signature = two words): every type -/
+theorem elem_descriptor_agree_fixed (tg : Target) (h : wfTarget tg = true) (t : GoType)
+    (hp : padFree tg (toRaw t) = true) : elemDescSize tg 2 t = (llvmLayout tg t).size := by
+  rcases wfTarget_cases tg h with rfl | rfl
+  · exact elemDesc_eq 4 (Or.inl rfl) 2 t hp (Or.inl rfl)
+  · exact elemDesc_eq 8 (Or.inr rfl) 2 t hp (Or.inl rfl)
 
 /-- `FieldAlign` is `Align` in the descriptor table. -/
 theorem abi_fieldAlign (tg : Target) (t : GoType) : abiFieldAlign tg t = abiAlign tg t := rfl
@@ -89,6 +117,7 @@ def exStruct : GoType :=
 example : wfTarget amd64 = true ∧ abiOK amd64 = true ∧ padFree amd64 exStruct = true ∧
     padFree amd64 (toRaw exStruct) = true := by decide
 example : goSizes amd64 exStruct = ⟨112, 8, [0, 8, 24, 72, 88, 96]⟩ ∧ goSizes i386 exStruct = ⟨68, 4, [0, 4, 12, 36, 44, 52]⟩ := by decide
+example : toRaw exStruct ≠ .closure ∧ toRaw (.named .func) ≠ .closure := by simp [exStruct, toRaw]
 example : wfTarget i386 = true ∧ padFree i386 exStruct = true ∧ padFree i386 (toRaw exStruct) = true := by decide
 example : abiTableFixed i386 (.basic .int64) = ⟨8, 4, []⟩ ∧ abiTable i386 (.basic .int64) = ⟨8, 8, []⟩ := by decide
 example : padFree amd64 (toRaw (mapBucket amd64 (toRaw (.basic .string)) (toRaw exStruct))) = true := by decide
